@@ -14,6 +14,13 @@ import ClarabelProofs.Lemmas.QdldlRefactor
 import ClarabelProofs.Lemmas.QdldlExamples
 import ClarabelProofs.Lemmas.QdldlFactorSolve
 import ClarabelProofs.Lemmas.QdldlPermTriu
+import ClarabelProofs.Lemmas.QdldlRepresents
+import ClarabelProofs.Lemmas.QdldlNew
+import ClarabelProofs.Lemmas.QdldlZeroPivot
+import ClarabelProofs.Lemmas.QdldlNewZeroPivot
+import ClarabelProofs.Lemmas.QdldlLogical
+import ClarabelProofs.Lemmas.QdldlHistory
+import ClarabelProofs.Lemmas.QdldlHistoryMain
 import ClarabelProofs.Lemmas.ScalarInst
 import Mathlib.Algebra.Order.Field.Basic
 
@@ -819,6 +826,361 @@ example : ∃ (F : Factorisation ℝ) (a : Nat → Nat → ℝ) (es : EtreeState
    fun _ => by decide⟩
 
 end factor_field
+
+/-! ### Follow-up to round 3: `QDLDLFactorisation::new` / `solve` end to end
+
+The theorems above are about `_factor_inner` on a `triuA` that `Represents` a dense matrix.  Here the
+hypothesis is discharged from the user's input: `A` in valid CSC format (`wellFormed`), accepted by
+`check_structure`, canonical (`NoDupCols`: no column stores a row index twice — what
+`CscMatrix::check_format` demands), `perm` a permutation of `0 … n-1`, `n > 0`.
+`symOf A i j = A[min i j, max i j]` is the symmetric matrix whose upper triangle `A` stores and
+`signAt dsigns perm r = Dsigns[perm r]` (default `+1`). -/
+
+section new_end_to_end
+open Matrix BigOperators
+
+/-- [S] (holds at `Float`) **the `Represents` bridge**: for a canonical upper-triangular `A` and a
+valid ordering, `permute_symmetric(A, iperm)` succeeds, the `triuA` it returns stores no position
+twice (so it `Represents` its dense meaning — the hypothesis of `factor_structure`,
+`factor_correct`, `refactor_eq_fresh`, …), and that dense meaning is the symmetric permutation
+`Π Sym(A) Πᵀ`: `triuA[i,k] = A[min (perm i) (perm k), max (perm i) (perm k)]` for `i ≤ k < n`. -/
+theorem permute_symmetric_represents {α : Type} [Add α] [Sub α] [Mul α] [Div α] [Neg α] [OfNat α 0]
+    [OfNat α 1] [LT α] [DecidableLT α] [BEq α] [FloatLike α]
+    (A : Csc α) (hw : wellFormed A = true) (hc : checkStructure A = .ok ())
+    (hnd : NoDupCols A.colptr A.rowval) (perm : Array Nat) (hp : IsPerm perm) (hps : perm.size = A.n) :
+    ∃ iperm P map, Perm.invperm perm = .ok iperm ∧ permuteSymmetric A iperm = .ok (P, map) ∧
+      P.n = A.n ∧ TriuCsc P.n P.colptr P.rowval ∧ NoDupCols P.colptr P.rowval ∧
+      Represents P.n P.colptr P.rowval P.nzval (denseOf P.colptr P.rowval P.nzval) ∧
+      ∀ i k, k < A.n → i ≤ k → denseOf P.colptr P.rowval P.nzval i k =
+        denseOf A.colptr A.rowval A.nzval (min (perm.getD i 0) (perm.getD k 0))
+          (max (perm.getD i 0) (perm.getD k 0)) := by
+  obtain ⟨iperm, hip⟩ := (invperm_ok_iff perm).mpr hp
+  have hA := InputOK.of_checks A hw hc
+  obtain ⟨hisz, hinv⟩ := invperm_invPair perm iperm hip
+  rw [hps] at hinv hisz
+  obtain ⟨P, map, hP⟩ := permuteSymmetric_total A hA iperm (by omega) hinv.ip_lt
+  obtain ⟨h1, h2, h3⟩ := permuteSymmetric_represents A hA hnd iperm (fun i => perm.getD i 0) hinv P map hP
+  obtain ⟨hPn, hT⟩ := permuteSymmetric_triuCsc A iperm P map hP
+  exact ⟨iperm, P, map, hip, hP, hPn, hT, h1, h2, h3⟩
+
+variable {α : Type} [Field α] [DecidableEq α] [LT α] [DecidableLT α] [FloatLike α]
+
+/-- [F] **`QDLDLFactorisation::new(A, perm)`: `Π·Sym(A)·Πᵀ = L·D·Lᵀ`, hypotheses on the user's
+input only.**  The call returns `ZeroPivot` or a factorisation object — never a panic, never
+another error.  For the object `F` (with `L = denseL F.L`, unit diagonal implied, `d = F.D`):
+`F.L` is strictly lower triangular; for `c < r < n`
+`L[r,c]·d[c] + Σ_{j<c} L[c,j]·L[r,j]·d[j] = Sym(A)[perm c, perm r]`; for `r < n`
+`d[r] = rule_r (Sym(A)[perm r, perm r] − Σ_{j<r} L[r,j]·d[j]·L[r,j])` with `rule_r` the pivot rule
+`regularizePivot` with sign `Dsigns[perm r]` (`pivot_rule`; the identity when regularisation is
+off); `d[r] ≠ 0`, `Dinv = 1/d`, `positive_inertia` = number of positive `d`, `regularize_count` =
+number of rows on which the rule fired. -/
+theorem new_factor_correct (A : Csc α) (hw : wellFormed A = true) (hc : checkStructure A = .ok ())
+    (hnd : NoDupCols A.colptr A.rowval) (hn : 0 < A.n) (perm : Array Nat) (hp : IsPerm perm)
+    (hps : perm.size = A.n) (dsigns : Option (Array Int))
+    (hds : ∀ ds, dsigns = some ds → A.n ≤ ds.size) (enable : Bool) (eps delta : α) :
+    (new A perm dsigns enable eps delta false = .error errZeroPivot ∨
+      ∃ F, new A perm dsigns enable eps delta false = .ok F) ∧
+    ∀ F, new A perm dsigns enable eps delta false = .ok F → NewSpec A perm dsigns enable eps delta F := by
+  obtain ⟨iperm, hip⟩ := (invperm_ok_iff perm).mpr hp
+  exact new_correct A hw hc hnd hn perm iperm hip hps dsigns hds enable eps delta
+
+/-- [F] regularisation off: the equations of `new_factor_correct` are the matrix identity
+`(I+L)·D·(I+L)ᵀ = Π·Sym(A)·Πᵀ` (entry `(i,j)` of the right-hand side is `Sym(A)[perm i, perm j]`). -/
+theorem new_factor_correct_unregularized (A : Csc α) (hw : wellFormed A = true)
+    (hc : checkStructure A = .ok ()) (hnd : NoDupCols A.colptr A.rowval) (hn : 0 < A.n)
+    (perm : Array Nat) (hp : IsPerm perm) (hps : perm.size = A.n) (dsigns : Option (Array Int))
+    (hds : ∀ ds, dsigns = some ds → A.n ≤ ds.size) (eps delta : α) (F : Factorisation α)
+    (hF : new A perm dsigns false eps delta false = .ok F) :
+    ((1 + Matrix.of fun (i j : Fin A.n) => denseL F.L.colptr F.L.rowval F.L.nzval i j) *
+        Matrix.diagonal (fun i : Fin A.n => F.D.getD i 0) *
+        (1 + Matrix.of fun (i j : Fin A.n) => denseL F.L.colptr F.L.rowval F.L.nzval i j)ᵀ :
+          Matrix (Fin A.n) (Fin A.n) α) =
+      Matrix.of fun i j : Fin A.n => symOf A (perm.getD i.val 0) (perm.getD j.val 0) := by
+  have hS := (new_factor_correct A hw hc hnd hn perm hp hps dsigns hds false eps delta).2 F hF
+  ext i j
+  have := ldl_matrix_form A.n (denseL F.L.colptr F.L.rowval F.L.nzval) (fun j => F.D.getD j 0)
+    (fun c r => symOf A (perm.getD c 0) (perm.getD r 0))
+    (fun r c hc hrc => denseL_upper hS.lower r c hc hrc) hS.offdiag (by
+      intro r hr
+      have := hS.diag r hr
+      simp only [regularizePivot, Bool.false_eq_true, ↓reduceIte] at this
+      rw [this]; ring) i j
+  rw [this]
+  show symOf A _ _ = symOf A (perm.getD i.val 0) (perm.getD j.val 0)
+  rcases Nat.le_total i.val j.val with hle | hle
+  · rw [Nat.min_eq_left hle, Nat.max_eq_right hle]
+  · rw [Nat.min_eq_right hle, Nat.max_eq_left hle, symOf_comm]
+
+/-- [F] **`new` then `solve(b)`: `Sym(A)·x = b`** — the first sentence of the property end to end,
+hypotheses on the user's `A`, `perm` and `b` only (regularisation off).  If `new` returned a
+factorisation object `F`, then `solve F b` (permute, `_lsolve`, `_dltsolve`, `ipermute` on the CSC
+arrays, with all their indexed reads and writes) does not fail and returns `x` with
+`Sym(A)·x = b`. -/
+theorem new_solve_correct (A : Csc α) (hw : wellFormed A = true) (hc : checkStructure A = .ok ())
+    (hnd : NoDupCols A.colptr A.rowval) (hn : 0 < A.n) (perm : Array Nat) (hp : IsPerm perm)
+    (hps : perm.size = A.n) (dsigns : Option (Array Int))
+    (hds : ∀ ds, dsigns = some ds → A.n ≤ ds.size) (eps delta : α) (F : Factorisation α)
+    (hF : new A perm dsigns false eps delta false = .ok F) (b : Array α) (hb : b.size = A.n) :
+    ∃ x, solve F b = .ok x ∧ x.size = A.n ∧
+      Matrix.mulVec (Matrix.of fun i j : Fin A.n => symOf A i.val j.val) (fun j => x.getD j.val 0) =
+        fun i => b.getD i.val 0 := by
+  obtain ⟨iperm, hip⟩ := (invperm_ok_iff perm).mpr hp
+  exact new_solve A hw hc hnd hn perm iperm hip hps dsigns hds eps delta F hF b hb
+
+/-- non-vacuity of the hypotheses on the user's input (`permute_symmetric_represents`,
+`new_factor_correct`, `new_solve_correct`, …): the matrix `[[4,1],[1,3]]` with the reversed
+ordering is well formed, accepted by `check_structure`, canonical, and `[1,0]` is a permutation -/
+example : wellFormed (⟨2, 2, #[0, 1, 3], #[0, 0, 1], #[4, 1, 3]⟩ : Csc ℝ) = true := by rfl
+example : checkStructure (⟨2, 2, #[0, 1, 3], #[0, 0, 1], #[4, 1, 3]⟩ : Csc ℝ) = .ok () := by rfl
+example : NoDupCols #[0, 1, 3] #[0, 0, 1] := by
+  intro k t t' h1 h2 h1' h2' h
+  rcases k with _ | _ | k
+  · simp at h1 h2 h1' h2'; omega
+  · simp at h1 h2 h1' h2'
+    have ht : t = 1 ∨ t = 2 := by omega
+    have ht' : t' = 1 ∨ t' = 2 := by omega
+    rcases ht with rfl | rfl <;> rcases ht' with rfl | rfl <;> simp at h ⊢
+  · simp at h2
+example : IsPerm #[1, 0] := by
+  constructor
+  · simp
+  · intro j hj; simp at hj; rcases hj with rfl | rfl <;> simp
+/-- non-vacuity of `hF : new … = .ok F`: the `1 × 1` matrix `[2]` over `ℝ` is factored -/
+example : ∃ F, new (⟨1, 1, #[0, 1], #[0], #[2]⟩ : Csc ℝ) #[0] none false 0 0 false = .ok F := by
+  cases h : new (⟨1, 1, #[0, 1], #[0], #[2]⟩ : Csc ℝ) #[0] none false 0 0 false with
+  | ok F => exact ⟨F, rfl⟩
+  | error e =>
+    exfalso
+    simp [new, checkStructure, Csc.isTriu, Csc.colRows, Csc.anyAdjacent, Perm.invperm, Perm.invpermLoop,
+      newWithOrdering, permuteSymmetric, wellFormed, permutePattern, colOf, countInto, cumsum, assignPositions,
+      scatter, etree, etreeCol, etreeWalk, factor, factorInner, finishPivot, getE, setE, bind, Except.bind, pure,
+      Except.pure] at h
+
+/-! ### `ZeroPivot` ⇔ an exact pivot is zero
+
+`refPivot a k` (`Lemmas/QdldlZeroPivot.lean`) is the `k`-th pivot of the reference dense LDLᵀ
+elimination of the symmetric matrix with upper triangle `a`, defined by plain recursion on the
+rows (forward substitution for row `k` against the rows `< k`, then the Schur complement
+`a[k,k] − Σ_{j<k} L[k,j]²·d[j]`), independently of the model's loops. -/
+
+/-- the reference pivots of a `2 × 2` matrix: `d₀ = a₀₀`, `d₁ = a₁₁ − (a₀₁/a₀₀)²·a₀₀` -/
+example (a : Nat → Nat → ℝ) : refPivot a 0 = a 0 0 ∧
+    refPivot a 1 = a 1 1 - (a 0 1 / a 0 0) * a 0 0 * (a 0 1 / a 0 0) := by
+  constructor <;> simp [refPivot, refLDL, refRow, Finset.sum_range_succ]
+
+/-- [F] **`ZeroPivot` iff a pivot of the exact elimination is exactly zero** (regularisation off),
+on every pattern and whatever the incoming buffers hold: `_factor_inner` returns `ZeroPivot` iff
+`refPivot a k = 0` for some `k < n`; if no reference pivot is zero it returns `Ok`, and whenever it
+returns `Ok` the `D` it produced is exactly the vector of reference pivots (all nonzero). -/
+theorem zero_pivot_iff (n : Nat) (hn : 0 < n) (Ap Ai : Array Nat) (hA : TriuCsc n Ap Ai)
+    (Ax : Array α) (a : Nat → Nat → α) (hR : Represents n Ap Ai Ax a)
+    (es : EtreeState) (hes : etree n Ap Ai = .ok es)
+    (Li : Array Nat) (Lx D Dinv : Array α) (hLi : (cumsum es.Lnz).getD n 0 ≤ Li.size)
+    (hLx : Lx.size = Li.size) (hDs : D.size = n) (hDi : Dinv.size = n)
+    (rp : RegParams α) (hoff : rp.enable = false) :
+    (factorInner n Ap Ai Ax Li Lx D Dinv es.Lnz es.etree false rp = .error errZeroPivot ↔
+      ∃ k, k < n ∧ refPivot a k = 0) ∧
+    ((∀ k, k < n → refPivot a k ≠ 0) →
+      ∃ s, factorInner n Ap Ai Ax Li Lx D Dinv es.Lnz es.etree false rp = .ok s ∧
+        ∀ k, k < n → s.D.getD k 0 = refPivot a k) ∧
+    (∀ s, factorInner n Ap Ai Ax Li Lx D Dinv es.Lnz es.etree false rp = .ok s →
+      ∀ k, k < n → s.D.getD k 0 = refPivot a k ∧ refPivot a k ≠ 0) := by
+  obtain ⟨es', hes', hI⟩ := etree_spec n Ap Ai hA
+  have : es' = es := by rw [hes'] at hes; exact Except.ok.inj hes
+  subst this
+  exact factorInner_zeroPivot_iff (FCtx.of_etree hn hA hI) Ax a hR Li Lx D Dinv hLi hLx hDs hDi rp hoff
+
+/-- [F] the same for the public constructor, hypotheses on the user's input only:
+`QDLDLFactorisation::new(A, perm)` (regularisation off) returns `ZeroPivot` iff some pivot of the
+exact elimination of `Π·Sym(A)·Πᵀ` (`permSym A perm i k = Sym(A)[perm i, perm k]`) is zero;
+otherwise it returns `Ok`, and the `D` of the returned object is the vector of exact pivots. -/
+theorem new_zero_pivot_iff (A : Csc α) (hw : wellFormed A = true) (hc : checkStructure A = .ok ())
+    (hnd : NoDupCols A.colptr A.rowval) (hn : 0 < A.n) (perm : Array Nat) (hp : IsPerm perm)
+    (hps : perm.size = A.n) (dsigns : Option (Array Int))
+    (hds : ∀ ds, dsigns = some ds → A.n ≤ ds.size) (eps delta : α) :
+    (new A perm dsigns false eps delta false = .error errZeroPivot ↔
+      ∃ k, k < A.n ∧ refPivot (permSym A perm) k = 0) ∧
+    ((∀ k, k < A.n → refPivot (permSym A perm) k ≠ 0) →
+      ∃ F, new A perm dsigns false eps delta false = .ok F) ∧
+    (∀ F, new A perm dsigns false eps delta false = .ok F →
+      ∀ k, k < A.n → F.D.getD k 0 = refPivot (permSym A perm) k ∧ refPivot (permSym A perm) k ≠ 0) := by
+  obtain ⟨iperm, hip⟩ := (invperm_ok_iff perm).mpr hp
+  exact new_zeroPivot_iff A hw hc hnd hn perm iperm hip hps dsigns hds eps delta
+
+end new_end_to_end
+
+/-! ### the logical (symbolic) pass, histories of value updates, the empty matrix -/
+
+section logical_and_histories
+variable {α : Type} [Add α] [Sub α] [Mul α] [Div α] [Neg α] [OfNat α 0] [OfNat α 1] [LT α]
+  [DecidableLT α] [BEq α] [FloatLike α]
+
+/-- [S] (holds at `Float`) **the `logical = true` pass of `_factor_inner`** never fails — not even
+with `ZeroPivot` — and computes: `Lp = cumsum Lnz`; column `c` of `Li` lists the rows of column `c`
+of the symbolic factor in increasing order inside its slot (the same `Li` as the numeric pass,
+`factor_structure`); `Lx` and `Dinv` are returned untouched (`_factor` passes all-ones arrays in);
+both counters are `0`; the work arrays are left cleared; and `D[0] = 0`, `D[k] = triuA[k,k]` for
+`1 ≤ k < n` (`D` is zero-filled by `_factor_inner` itself, so the `D.fill(1)` of `_factor` does not
+survive: there is no "D = 1" convention after a logical factorisation). -/
+theorem logical_factor (n : Nat) (hn : 0 < n) (Ap Ai : Array Nat) (hA : TriuCsc n Ap Ai)
+    (Ax : Array α) (a : Nat → Nat → α) (hR : Represents n Ap Ai Ax a)
+    (es : EtreeState) (hes : etree n Ap Ai = .ok es)
+    (Li : Array Nat) (Lx D Dinv : Array α) (hLi : (cumsum es.Lnz).getD n 0 ≤ Li.size)
+    (hLx : Lx.size = Li.size) (hDs : D.size = n) (hDi : Dinv.size = n) (rp : RegParams α) :
+    ∃ s, factorInner n Ap Ai Ax Li Lx D Dinv es.Lnz es.etree true rp = .ok s ∧
+      s.Lp = cumsum es.Lnz ∧ s.Li.size = Li.size ∧
+      (∀ c, c < n → ∀ t r, (Lrows (Apat Ap Ai) n c)[t]? = some r →
+        s.Li.getD ((cumsum es.Lnz).getD c 0 + t) 0 = r) ∧
+      s.Lx = Lx ∧ s.Dinv = Dinv ∧ s.regularizeCount = 0 ∧ s.positive = 0 ∧ s.D.size = n ∧
+      (∀ c, c < n → s.D.getD c 0 = if c = 0 then 0 else a c c) ∧
+      (∀ c, c < n → s.yMarkers.getD c false = false ∧ s.yVals.getD c 0 = 0) := by
+  obtain ⟨es', hes', hI⟩ := etree_spec n Ap Ai hA
+  have : es' = es := by rw [hes'] at hes; exact Except.ok.inj hes
+  subst this
+  obtain ⟨s, hs, hR', e1, e2, e3, e4, e5⟩ :=
+    factorInner_logical (FCtx.of_etree hn hA hI) Ax a hR Li Lx D Dinv hLi hLx hDs hDi rp
+  exact ⟨s, hs, hR'.lp, hR'.lisz, hR'.li, e1, e2, e3, e4, hR'.dsz, e5,
+    fun c hc => ⟨hR'.mrk0 c hc, hR'.yv0 c hc⟩⟩
+
+/-- [S] (holds at `Float`) **`QDLDLFactorisation::new` with `logical = true`**, hypotheses on the
+user's input only: the call succeeds (no error, no panic) and returns an object with
+`is_symbolic = true`, the `triuA / AtoPAPt / etree / Lnz` of the numeric constructor,
+`L.colptr = cumsum Lnz`, `L.rowval` = the symbolic pattern, `L.nzval` and `Dinv` all `1`,
+`D[0] = 0`, `D[k] = triuA[k,k]` (`k ≥ 1`), inertia and regularisation count `0`. -/
+theorem new_logical_correct (A : Csc α) (hw : wellFormed A = true) (hc : checkStructure A = .ok ())
+    (hnd : NoDupCols A.colptr A.rowval) (hn : 0 < A.n) (perm : Array Nat) (hp : IsPerm perm)
+    (hps : perm.size = A.n) (dsigns : Option (Array Int))
+    (hds : ∀ ds, dsigns = some ds → A.n ≤ ds.size) (enable : Bool) (eps delta : α) :
+    ∃ F iperm P map es, new A perm dsigns enable eps delta true = .ok F ∧
+      Perm.invperm perm = .ok iperm ∧ permuteSymmetric A iperm = .ok (P, map) ∧
+      etree P.m P.colptr P.rowval = .ok es ∧
+      F.isSymbolic = true ∧ F.triuA = P ∧ F.AtoPAPt = map ∧ F.etree = es.etree ∧ F.Lnz = es.Lnz ∧
+      F.L.colptr = cumsum es.Lnz ∧ F.L.rowval.size = es.Lnz.toList.foldl (· + ·) 0 ∧
+      (∀ c, c < A.n → ∀ t r, (Lrows (Apat P.colptr P.rowval) A.n c)[t]? = some r →
+        F.L.rowval.getD ((cumsum es.Lnz).getD c 0 + t) 0 = r) ∧
+      F.L.nzval = Array.replicate (es.Lnz.toList.foldl (· + ·) 0) 1 ∧
+      F.Dinv = Array.replicate A.n 1 ∧ F.D.size = A.n ∧
+      (∀ c, c < A.n → F.D.getD c 0 = if c = 0 then 0 else denseOf P.colptr P.rowval P.nzval c c) ∧
+      F.positiveInertia = 0 ∧ F.regularizeCount = 0 := by
+  obtain ⟨iperm, hip⟩ := (invperm_ok_iff perm).mpr hp
+  obtain ⟨P, map, Ds, es, S⟩ := stages_of A hw hc hnd hn perm iperm hip hps dsigns hds
+  obtain ⟨F, h0, h1, h2, h3, h4, h5, h6, h7, h8, h9, h10, h11, h12, h13, h14, _⟩ :=
+    new_logical S enable eps delta
+  exact ⟨F, iperm, P, map, es, h0, hip, S.ps, S.et, h1, h2, h3, h4, h5, h6, h7, h8, h9, h10, h11, h12, h13, h14⟩
+
+/-- [S] (holds at `Float`: bit-identical) **`refactor` after an arbitrary history = factoring the
+updated matrix from scratch.**  Let `F0` be the object returned by `new(A, perm)` (numeric or
+logical), `ops` any sequence of `update_values / scale_values / offset_values / refactor` calls
+(`HistOp`; `runF` runs them on the object with the model functions) that the object survives, and
+`F` the object after the history.  Then the same updates applied in the same order to the user's
+own value array (`runA`: `A.nzval[idx] = v`, `*= s`, `±= off`) succeed with some `v`, and
+`refactor F` returns exactly what `QDLDLFactorisation::new` (numeric) returns on the matrix `A`
+with values `v`: the same error (`ZeroPivot`) or the same object in every field — `L`, `D`, `Dinv`,
+inertia, regularisation count, `triuA`, `AtoPAPt`, … .  (Composition of `update_commutes` and
+`refactor_eq_fresh` over the history; intermediate `refactor`s leave no trace.) -/
+theorem history_refactor_eq_fresh (A : Csc α) (hw : wellFormed A = true) (hc : checkStructure A = .ok ())
+    (hnd : NoDupCols A.colptr A.rowval) (hn : 0 < A.n) (perm : Array Nat) (hp : IsPerm perm)
+    (hps : perm.size = A.n) (dsigns : Option (Array Int))
+    (hds : ∀ ds, dsigns = some ds → A.n ≤ ds.size) (enable : Bool) (eps delta : α) (logical : Bool)
+    (F0 : Factorisation α) (h0 : new A perm dsigns enable eps delta logical = .ok F0)
+    (ops : List (HistOp α)) (F : Factorisation α) (hrun : runF F0 ops = .ok F) :
+    ∃ v, runA A.nzval ops = .ok v ∧ v.size = A.nzval.size ∧
+      refactor F = new { A with nzval := v } perm dsigns enable eps delta false := by
+  obtain ⟨iperm, hip⟩ := (invperm_ok_iff perm).mpr hp
+  exact history_refactor A hw hc hnd hn perm iperm hip hps dsigns hds enable eps delta logical F0 h0 ops F hrun
+
+/-- [S] (holds at `Float`: bit-identical) **a logical factorisation followed by `refactor` is a
+fresh numeric factorisation**: if `new(A, perm)` with `logical = true` returned `FL`, then
+`refactor FL` returns exactly what `new(A, perm)` with `logical = false` returns.  This is the site
+of the seeded change C12-c (no `D.fill(0)`, `D[k] = Ax[i]` skipped in logical mode): there the
+refactorisation starts from the `D = 1` left by `_factor` and the equation fails on every pattern
+with a column without stored diagonal entry. -/
+theorem logical_then_refactor_eq_fresh (A : Csc α) (hw : wellFormed A = true)
+    (hc : checkStructure A = .ok ()) (hnd : NoDupCols A.colptr A.rowval) (hn : 0 < A.n)
+    (perm : Array Nat) (hp : IsPerm perm) (hps : perm.size = A.n) (dsigns : Option (Array Int))
+    (hds : ∀ ds, dsigns = some ds → A.n ≤ ds.size) (enable : Bool) (eps delta : α)
+    (FL : Factorisation α) (hL : new A perm dsigns enable eps delta true = .ok FL) :
+    refactor FL = new A perm dsigns enable eps delta false := by
+  obtain ⟨v, hv, _, h⟩ := history_refactor_eq_fresh A hw hc hnd hn perm hp hps dsigns hds enable eps delta
+    true FL hL [] FL rfl
+  have : v = A.nzval := (Except.ok.inj hv).symm
+  subst this
+  exact h
+
+/-- [S] the canonical form demanded by `CscMatrix::check_format` (row indices strictly increasing
+inside every column) implies the hypothesis `NoDupCols` of the end-to-end theorems -/
+theorem canonical_no_dup (Ap Ai : Array Nat)
+    (h : ∀ k t, Ap.getD k 0 ≤ t → t + 1 < Ap.getD (k + 1) 0 → Ai.getD t 0 < Ai.getD (t + 1) 0) :
+    NoDupCols Ap Ai := noDupCols_of_sorted Ap Ai h
+
+/-- [S] (holds at `Float`) **errors, never panics, end to end.**  For every input:
+a matrix rejected by `check_structure` makes `new` return that error (`IncompatibleDimension`,
+`NotUpperTriangular`, `EmptyColumn`: `check_structure`); a structurally valid matrix with an
+invalid ordering makes it return `InvalidPermutation` (`invperm_rejects`).  For a valid input
+(well formed, canonical, `n > 0`, `perm` a permutation of `0 … n-1`, `Dsigns` long enough) numeric
+`new` returns `ZeroPivot` or `Ok` and logical `new` returns `Ok` — no out-of-range access anywhere
+in `_invperm`, `permute_symmetric`, `permute`, `_etree`, `_factor_inner`. -/
+theorem new_errors_never_panics (A : Csc α) (perm : Array Nat) (dsigns : Option (Array Int))
+    (enable : Bool) (eps delta : α) :
+    (∀ e logical, checkStructure A = .error e →
+      new A perm dsigns enable eps delta logical = .error e) ∧
+    (∀ logical, checkStructure A = .ok () → ¬ IsPerm perm →
+      new A perm dsigns enable eps delta logical = .error Perm.invalidPermutation) ∧
+    (wellFormed A = true → checkStructure A = .ok () → NoDupCols A.colptr A.rowval → 0 < A.n →
+      IsPerm perm → perm.size = A.n → (∀ ds, dsigns = some ds → A.n ≤ ds.size) →
+      (new A perm dsigns enable eps delta false = .error errZeroPivot ∨
+        ∃ F, new A perm dsigns enable eps delta false = .ok F) ∧
+      ∃ F, new A perm dsigns enable eps delta true = .ok F) := by
+  refine ⟨fun e lg he => (new_rejects A perm dsigns enable eps delta lg).1 e he,
+    fun lg hc hp => (new_rejects A perm dsigns enable eps delta lg).2 hc _ (invperm_rejects perm hp), ?_⟩
+  intro hw hc hnd hn hp hps hds
+  obtain ⟨iperm, hip⟩ := (invperm_ok_iff perm).mpr hp
+  exact new_total A hw hc hnd hn perm iperm hip hps dsigns hds enable eps delta
+
+/-- [S] **`n = 0`: the empty matrix makes `new` panic** (model statement; the implementation agrees,
+see `replays/C12/candidate-empty-matrix-panic.json`).  The only well-formed `0 × 0` CSC matrix
+passes `check_structure` (square, upper triangular, no column at all hence no empty column), the
+empty ordering is a valid permutation, and `_factor_inner` then reads `Ap[1]` of the one-entry
+`colptr`: index out of bounds.  In logical mode the read is skipped and `new` returns `Ok`.
+Not one of the error cases of the property (non-square, non-upper-triangular, empty column,
+zero pivot, invalid permutation); every other theorem of this file assumes `0 < n`. -/
+theorem empty_matrix_panics (dsigns : Option (Array Int)) (enable : Bool) (eps delta : α) :
+    checkStructure (⟨0, 0, #[0], #[], #[]⟩ : Csc α) = .ok () ∧ Perm.invperm #[] = .ok #[] ∧
+    new (⟨0, 0, #[0], #[], #[]⟩ : Csc α) #[] none enable eps delta false =
+      .error (.panic "_factor_inner: Ap[1]") ∧
+    ∃ F, new (⟨0, 0, #[0], #[], #[]⟩ : Csc α) #[] none enable eps delta true = .ok F :=
+  ⟨rfl, rfl, rfl, _, rfl⟩
+
+end logical_and_histories
+
+/-- non-vacuity of `history_refactor_eq_fresh`: the `1 × 1` matrix `[2]` over `ℝ` is factored and
+survives the history `scale_values([0], 3); refactor` -/
+example : ∃ F0 F, new (⟨1, 1, #[0, 1], #[0], #[2]⟩ : Csc ℝ) #[0] none false 0 0 false = .ok F0 ∧
+    runF F0 [HistOp.scale #[0] 3, HistOp.refactor] = .ok F := by
+  cases h0 : new (⟨1, 1, #[0, 1], #[0], #[2]⟩ : Csc ℝ) #[0] none false 0 0 false with
+  | error e =>
+    exfalso
+    simp [new, checkStructure, Csc.isTriu, Csc.colRows, Csc.anyAdjacent, Perm.invperm, Perm.invpermLoop,
+      newWithOrdering, permuteSymmetric, wellFormed, permutePattern, colOf, countInto, cumsum, assignPositions,
+      scatter, etree, etreeCol, etreeWalk, factor, factorInner, finishPivot, getE, setE, bind, Except.bind, pure,
+      Except.pure] at h0
+  | ok F0 =>
+    cases h1 : runF F0 [HistOp.scale #[0] (3 : ℝ), HistOp.refactor] with
+    | error e =>
+      exfalso
+      simp [new, checkStructure, Csc.isTriu, Csc.colRows, Csc.anyAdjacent, Perm.invperm, Perm.invpermLoop,
+        newWithOrdering, permuteSymmetric, wellFormed, permutePattern, colOf, countInto, cumsum, assignPositions,
+        scatter, etree, etreeCol, etreeWalk, factor, factorInner, finishPivot, getE, setE, bind, Except.bind, pure,
+        Except.pure] at h0
+      subst h0
+      simp [runF, stepF, scaleValues, modifyEntry, refactor, factor, factorInner, finishPivot, cumsum, getE, setE,
+        bind, Except.bind, pure, Except.pure] at h1
+    | ok F => exact ⟨F0, F, rfl, h1⟩
+
+/-- non-vacuity of `logical_factor` / `zero_pivot_iff`: their hypotheses are those of
+`factor_structure` / `factor_correct` (3 × 3 arrow matrix above); `rp.enable = false` is satisfiable -/
+example : ∃ rp : RegParams ℝ, rp.enable = false := ⟨⟨#[1, 1, 1], false, 0, 0⟩, rfl⟩
+
 
 /-- documented, not part of C12's claim: the asserting twin `algebra::utils::invperm` still
 uses `b[j] == 0` as "unset" and so accepts a repeated index whose first occurrence is at
